@@ -119,6 +119,54 @@ def extra(chk, thorough):
         chk.count("request_size_sweep")
         if got != [want] and sbad is None:
             sbad = (L, n, [g[:60] for g in got], want[:60], len(want))
+    # the same, many requests one after the other on ONE link (the numbering state and whatever the link layer remembers
+    # from earlier frames carry over): every frame written is well-formed by the independent decoder, and the NCP
+    # reassembles exactly the requests, in order
+    lbad = None
+    for order in ([741 + 2, 494 + 3, 30, 741 + 5, 300, 988, 494, 60, 988, 247 * 3 + 1, 247 * 2 + 1],
+                  [300, 600, 300, 900, 600, 300, 988, 988]):
+        r = A.Runner()
+        wants = []
+        try:
+            for L in order:
+                kw = W.gen_assignment(random_for(L), c.APS.DataReq.Req)
+                kw["Payload"] = type(kw["Payload"])([])
+                kw["DataLength"] = 0
+                base = c.APS.DataReq.Req(**kw).to_frame().hl_packet.length - 2
+                n = max(0, L - base)
+                prng = random_for(L + len(wants) * 1000)
+                kw["Payload"] = type(kw["Payload"])([prng.randrange(256) for _ in range(n)])
+                kw["DataLength"] = n
+                req = c.APS.DataReq.Req(**kw)
+                wants.append("M:%d:%s" % (int(req.header), hexs(bytes(req.to_frame().hl_packet.data))))
+                task = r.loop.create_task(r.api.request(req, timeout=2))
+                r.loop.settle()
+                for _ in range(8):
+                    if task.done():
+                        break
+                    r.step(("ack", r.cur_seq()))
+                r.step(("tick", 2500))          # no response: the request times out, the link is free again
+                if not task.done():
+                    task.cancel()
+                    r.loop.settle()
+            frames = [bytes(x) for x in r.wire.log]
+        finally:
+            r.close()
+        dec = chk.model.batch(["specdec %s" % hexs(b) for b in frames])
+        chk.evaluations += len(frames)
+        chk.count("one_link_frames", len(frames))
+        for b, d in zip(frames, dec):
+            if (d == "NONE" or not d.endswith(" 0")) and lbad is None:
+                lbad = ("frame %s... (length field %d, flags 0x%02x, header checksum 0x%02x) written by the host is not a well-formed "
+                        "frame" % (b[:12].hex(), b[2] | (b[3] << 8), b[5], b[6]), order)
+        got = chk.model.batch(["reasm %s" % hexs(b"".join(frames))])[0].split(" // ")[0].split(";")
+        if got != wants and lbad is None:
+            lbad = ("requests of sizes %s sent one after the other on one link: the NCP reassembles %d message(s), %d were sent; "
+                    "first difference at message %d" % (order, len(got), len(wants),
+                                                        next((i for i, (a, b) in enumerate(zip(got, wants)) if a != b), min(len(got), len(wants)))), order)
+    chk.oblige("monitor:many-requests-on-one-link(well-formed frames, reference NCP)", lbad is None, json.dumps(lbad)[:300] if lbad else "")
+    if lbad:
+        chk.violation(lbad[0], {"hl_sizes": lbad[1]}, key="one-link")
     chk.oblige("monitor:reference-NCP-receives-the-request(all sizes around multiples of the fragment size)", sbad is None,
                json.dumps(sbad)[:300] if sbad else "")
     if sbad:
